@@ -758,7 +758,12 @@ def decorate_with_checker(func: CallableT) -> CallableT:
                 # Ideally, we would catch any exception here and strip the checkers from the traceback.
                 # Unfortunately, this can not be done in Python 3, see
                 # https://stackoverflow.com/questions/44813333/how-can-i-elide-a-function-wrapper-from-the-traceback-in-python-3
+
+                # The contract checks are suspended only while the contracts of this call are evaluated, not while
+                # the function itself runs: recursive calls made by the function are checked as any other call.
+                in_progress.discard(id_func)
                 result = await func(*args, **kwargs)
+                in_progress.add(id_func)
 
                 if postconditions:
                     resolved_kwargs["result"] = result
@@ -836,7 +841,12 @@ def decorate_with_checker(func: CallableT) -> CallableT:
                 # Ideally, we would catch any exception here and strip the checkers from the traceback.
                 # Unfortunately, this can not be done in Python 3, see
                 # https://stackoverflow.com/questions/44813333/how-can-i-elide-a-function-wrapper-from-the-traceback-in-python-3
+
+                # The contract checks are suspended only while the contracts of this call are evaluated, not while
+                # the function itself runs: recursive calls made by the function are checked as any other call.
+                in_progress.discard(id_func)
                 result = func(*args, **kwargs)
+                in_progress.add(id_func)
 
                 if postconditions:
                     resolved_kwargs["result"] = result
